@@ -191,7 +191,7 @@ HOSTILE = [b'5', b'null', b'true', b'"SECoP"', b'"x SECoP discover"', b'[]', b'[
            b'{"SECoP": "discover"', b'{"SECoP": "discover"}x', b'\x00', b'{"SECoP": "discover", "a": "' + b'x' * 1100 + b'"}',
            b'x' * 2000, b'NaN', b'-Infinity', '{"SECoP": "discover"}'.encode('utf-16'), '{"SECoP": "discover"}'.encode('utf-32'),
            '{"SECoP": "discover"}'.encode('utf-16-le'), b'\xef\xbb\xbf{"SECoP": "discover"}', b'{"SECoP": "discover", "a": "\xed\xa0\x80"}', b'{"SECoP": "discover", "SECoP": "x"}', b'1e999', b'{"a":{"SECoP":"discover"}}']
-ALSO_VALID = [b' {"SECoP":"discover"} ', b'{"SECoP": "discover", "extra": [1, 2]}', b'{"x": "SECoP", "SECoP": "discover"}',
+ALSO_VALID = [b'{"SECoP": "discover", "padding": "' + b'x' * 600 + b'"}', b' {"SECoP":"discover"} ', b'{"SECoP": "discover", "extra": [1, 2]}', b'{"x": "SECoP", "SECoP": "discover"}',
               b'\xef\xbb\xbf{"SECoP": "discover"}'[3:], b'{"SECoP": "x", "SECoP": "discover"}']
 
 
